@@ -105,6 +105,28 @@ def c02_pair_family():
     return out
 
 
+def c02_triple_family(step=1):
+    """Loss sale + an acquisition at offset a by one affiliate + a sale at offset b by another (or the same)
+    affiliate, every (a, b) in -32..32 (thorough tier), so that 'acquired' and 'held at the end of the window'
+    are probed independently at every boundary."""
+    base = datetime.date(2020, 9, 15)
+    out = []
+    afs = ["Default", "Spouse", "Spouse (R)"]
+    for a in range(-32, 33, step):
+        for b in range(-32, 33, step):
+            for buyer in afs:
+                for seller in ("Default", "Spouse"):
+                    rows = [mkrow("FOO", iso(base - datetime.timedelta(days=300)), "Buy", "Default", shares="10", aps="10", cur="CAD"),
+                            mkrow("FOO", iso(base - datetime.timedelta(days=299)), "Buy", "Spouse", shares="6", aps="10", cur="CAD")]
+                    sale = mkrow("FOO", iso(base), "Sell", "Default", td=iso(base - datetime.timedelta(days=3)), shares="4", aps="6.5", cur="CAD")
+                    buy = mkrow("FOO", iso(base + datetime.timedelta(days=a)), "Buy", buyer, shares="3", aps="7", cur="CAD")
+                    sell = mkrow("FOO", iso(base + datetime.timedelta(days=b)), "Sell", seller, shares="6", aps="11", cur="CAD")
+                    ev = sorted([sale, buy, sell], key=lambda r: r["sd"])
+                    out.append(("triple a=%d b=%d buyer=%s seller=%s" % (a, b, buyer, seller),
+                                {"rows": rows + ev, "init": {}, "features": ["triple_family"]}))
+    return out
+
+
 def c02_user_sfl_family(rng, n):
     """Sales with a user-supplied 'superficial loss' value at chosen distances from the computed one."""
     out = []
@@ -320,8 +342,14 @@ def judge_c04(out, h, sec, A, table):
             evs = ref.events_by_security(h["rows"])[sec]
             dates = {str(e.td) for e in evs[idx:]}
             if not any(d in A.tool_error for d in dates):
-                out["findings"].append({"prop": "C04", "sec": sec, "what": "rejection message does not identify the transaction",
-                                        "detail": {"msg": A.tool_error, "reason": reason, "date": str(ev.td)}})
+                if rounding_margin(A.tool_error):
+                    # the tool stopped at an earlier, valid transaction because of a rounded share count
+                    out["findings"].append({"prop": "C04", "sec": sec, "what": "valid history rejected",
+                                            "detail": {"msg": A.tool_error, "rounding_margin": True,
+                                                       "note": "rejected before the genuinely offending transaction of %s" % ev.td}})
+                else:
+                    out["findings"].append({"prop": "C04", "sec": sec, "what": "rejection message does not identify the transaction",
+                                            "detail": {"msg": A.tool_error, "reason": reason, "date": str(ev.td)}})
             if sec not in A.tool_error and False:
                 pass
     else:
@@ -402,6 +430,8 @@ def build_population(prop, tier, seed):
         rng = common.rng_for(seed, prop, "user")
         for name, hh in c02_user_sfl_family(rng, 300 if tier == "quick" else 6000):
             pop.append((common.case_id(seed, prop, "user", len(pop)), name, hh))
+        for name, hh in c02_triple_family(step=8 if tier == "quick" else 1):
+            pop.append((common.case_id("triple", name), name, hh))
     if prop == "C04":
         n = {"quick": 2500, "thorough": 120000}[tier]
         rng = common.rng_for(seed, prop, "reason")
@@ -494,6 +524,8 @@ def run(prop, tier):
     if prop == "C02":
         V.extra["pair_family_cases"] = len(c02_pair_family())
         V.extra["pair_family_exhaustive"] = True
+        V.extra["triple_family_cases"] = len(c02_triple_family(step=8 if tier == "quick" else 1))
+        V.extra["triple_family_exhaustive"] = (tier == "thorough")
     floors = {"C01": {"judged_rows": 1000}, "C02": {"judged_loss_sales": 500},
               "C03": {"judged_c03_prefixes": 500}, "C04": {"judged_rejected_by_model": 50}}
     return V.finish(floor_eval=100, floor_nontrivial=10, floors=floors[prop])
